@@ -13,17 +13,20 @@ CONSTANTS Sizes,      \* value sizes to insert (some above the inline limit)
           AllowPop,   \* explore PopIterate
           GrowUntil,  \* simulation walks: only inserts / overwrites before this step ...
           ShrinkFrom, \* ... and only removals / overwrites from this step on (0, large = no phases)
+          Persist,    \* also explore commit (both kinds, 1..3 workers), cache drop and crash (abandon + reopen) events
           EmitDepth   \* simulation: print the history of a walk when it reaches this length (0 = off)
 
-VARIABLES tree, seq, nextId, hist, res
+VARIABLES tree, seq, nextId, hist, res,
+          ctree, cseq    \* tree and sequence at the last commit (ctree = "none" before the first)
 
-mvars == <<tree, seq, nextId, hist, res>>
+mvars == <<tree, seq, nextId, hist, res, ctree, cseq>>
 
 Elem(vsz) == [id |-> nextId, vsz |-> vsz]
 Emit(h) == IF EmitEdges THEN PrintT(ToJson(h)) ELSE TRUE
 Step(o) == hist' = Append(hist, o) /\ Emit(hist')
 
-Init == tree = EmptyTree /\ seq = <<>> /\ nextId = 1 /\ hist = <<>> /\ res = Ok(0)
+NoTree0 == [k |-> "none"]
+Init == tree = EmptyTree /\ seq = <<>> /\ nextId = 1 /\ hist = <<>> /\ res = Ok(0) /\ ctree = NoTree0 /\ cseq = <<>>
 
 N == Count(tree)
 
@@ -32,32 +35,40 @@ Insert(i, vsz) ==
   /\ LET x == Elem(vsz)  a == AIns(seq, i, x.id) IN
      /\ seq' = a.s /\ res' = a.r
      /\ tree' = IF a.r.class = "ok" THEN TInsert(tree, i, x) ELSE tree
-     /\ nextId' = nextId + 1
+     /\ nextId' = nextId + 1 /\ UNCHANGED <<ctree, cseq>>
      /\ Step(<<"ins", i, x.id, vsz>>)
 
 Set(i, vsz) ==
   /\ LET x == Elem(vsz)  a == ASet(seq, i, x.id) IN
      /\ seq' = a.s /\ res' = a.r
      /\ tree' = IF a.r.class = "ok" THEN TSet(tree, i, x) ELSE tree
-     /\ nextId' = nextId + 1
+     /\ nextId' = nextId + 1 /\ UNCHANGED <<ctree, cseq>>
      /\ Step(<<"set", i, x.id, vsz>>)
 
 Remove(i) ==
   /\ LET a == ARem(seq, i) IN
      /\ seq' = a.s /\ res' = a.r
      /\ tree' = IF a.r.class = "ok" THEN TRemove(tree, i) ELSE tree
-     /\ UNCHANGED nextId
+     /\ UNCHANGED <<nextId, ctree, cseq>>
      /\ Step(<<"rem", i>>)
 
 Get(i) ==
   /\ LET a == AGet(seq, i) IN
-     /\ res' = a.r /\ UNCHANGED <<tree, seq, nextId>>
+     /\ res' = a.r /\ UNCHANGED <<tree, seq, nextId, ctree, cseq>>
      /\ Step(<<"get", i>>)
 
 Pop ==
   /\ N > 0 /\ AllowPop
-  /\ seq' = <<>> /\ tree' = TPop(tree) /\ res' = Ok(0) /\ UNCHANGED nextId
+  /\ seq' = <<>> /\ tree' = TPop(tree) /\ res' = Ok(0) /\ UNCHANGED <<nextId, ctree, cseq>>
   /\ Step(<<"pop">>)
+
+NoTree == [k |-> "none"]
+\* persistence events: layer-A stuttering steps (commit, drop cache) and the crash that reverts to the last commit
+Commit(m, w) == /\ Persist /\ ctree' = tree /\ cseq' = seq /\ res' = Ok(0) /\ UNCHANGED <<tree, seq, nextId>>
+                /\ Step(<<"commit", m, w, 0>>)
+DropCache == Persist /\ res' = Ok(0) /\ UNCHANGED <<tree, seq, nextId, ctree, cseq>> /\ Step(<<"dropcache">>)
+Crash == /\ Persist /\ ctree.k # "none" /\ tree' = ctree /\ seq' = cseq /\ res' = Ok(0) /\ UNCHANGED <<nextId, ctree, cseq>>
+         /\ Step(<<"crash">>)
 
 \* out-of-range requests: count (+1 for insert) and indices beyond 32 bits, written -(k+1) for 2^32 + k
 \* (TLC integers are 32-bit; the harness translates)
@@ -72,6 +83,8 @@ Next ==
   \/ ~Growing /\ \E i \in (0..(IF WithReads THEN N ELSE N - 1)) \cup Big : Remove(i)
   \/ WithReads /\ \E i \in (0..N) \cup Big : Get(i)
   \/ Pop
+  \/ \E m \in {"det", "nondet"}, w \in {1, 3} : Commit(m, w)
+  \/ DropCache \/ Crash
 
 Spec == Init /\ [][Next]_mvars
 
@@ -86,7 +99,7 @@ RoutingOK(n) == n.k = "d" \/ (/\ \A idx \in 0..(Count(n) - 1) : RoutingAgrees(n.
 Routing == RoutingOK(tree)
 \* a merge never produces an oversize slab and a rebalance never leaves an underflow: part of WellFormed
 
-View == Shape(tree)
+View == <<Shape(tree), IF ctree.k = "none" THEN <<>> ELSE <<Shape(ctree)>> >>
 \* simulation mode: one JSON line per walk, printed when the walk reaches EmitDepth operations
 EmitWalk == (EmitDepth > 0 /\ Len(hist) = EmitDepth) => PrintT(ToJson(hist))
 =============================================================================
